@@ -29,6 +29,7 @@ Theorem c06_roundtrip : forall G gadd f06 n2 (t : stree G) ro,
   t_ro t = Some ro ->
   NoDup (map s_id (r_list ro)) ->
   (forall x, In x (flat (t_root t)) -> nth_error (r_list ro) (n_ridx x) = Some (n_srv x)) ->
+  (forall x, In x (flat (t_root t)) -> s_nokey (n_srv x) = false) ->
   make_tree gadd f06 n2 (to_marshal t) (Some ro) =
     Ok (mkTree (t_id t) (Some ro) (with_aggs gadd (t_root t))) /\
   (aggs_computed G gadd (t_root t) -> make_tree gadd f06 n2 (to_marshal t) (Some ro) = Ok t) /\
@@ -39,6 +40,7 @@ Print Assumptions c06_roundtrip.
 Example c06_roundtrip_example :
   NoDup (map s_id (r_list ex_ro)) /\
   (forall x, In x (flat (t_root ex_tree)) -> nth_error (r_list ex_ro) (n_ridx x) = Some (n_srv x)) /\
+  (forall x, In x (flat (t_root ex_tree)) -> s_nokey (n_srv x) = false) /\
   aggs_computed nat Nat.add (t_root ex_tree) /\
   make_tree Nat.add false false (to_marshal ex_tree) (Some ex_ro) = Ok ex_tree.
 Proof. exact roundtrip_example. Qed.
@@ -79,6 +81,7 @@ Theorem c06_bytes_roundtrip : forall G gadd B (enc : tmarshal -> B) (dec : B -> 
   forall f06 n2 (t : stree G) ro,
   t_ro t = Some ro -> NoDup (map s_id (r_list ro)) ->
   (forall x, In x (flat (t_root t)) -> nth_error (r_list ro) (n_ridx x) = Some (n_srv x)) ->
+  (forall x, In x (flat (t_root t)) -> s_nokey (n_srv x) = false) ->
   aggs_computed G gadd (t_root t) ->
   from_bytes gadd f06 n2 (dec (enc (to_marshal t))) (Some ro) = Ok t.
 Proof. exact bytes_roundtrip. Qed.
@@ -92,6 +95,7 @@ Theorem c06_binary_roundtrip : forall G gadd B (enc : tmarshal -> B) (dec : B ->
   forall f06 n2 (t : stree G) ro,
   t_ro t = Some ro -> NoDup (map s_id (r_list ro)) ->
   (forall x, In x (flat (t_root t)) -> nth_error (r_list ro) (n_ridx x) = Some (n_srv x)) ->
+  (forall x, In x (flat (t_root t)) -> s_nokey (n_srv x) = false) ->
   aggs_computed G gadd (t_root t) ->
   binary_unmarshal gadd f06 n2
     (option_map (fun p => (dec (fst p), snd p)) (dec_outer (enc_outer (enc (to_marshal t), t_ro t)))) = Ok t.
